@@ -23,7 +23,7 @@ func init() { fw.Register(c09{}) }
 func (c09) Meta() fw.Meta {
 	return fw.Meta{
 		ID: "C09",
-		Rule: "case = one scenario through the real binary: pairs of files {identical bytes, same content written separately, k slots perturbed (other value / value->NaN / NaN->value / one ulp apart / +0 vs -0 / NaN payloads / +-Inf), unrelated}, equal or different layouts, either side missing, glob trees with 0/1/all files differing, -archive all or one id, windows {default, narrow, past, degenerate, beyond finest retention}. " +
+		Rule: "case = one scenario through the real binary: pairs of files {identical bytes, same content written separately, k slots perturbed (other value / value->NaN / NaN->value / one ulp apart / +0 vs -0 / NaN payloads / +-Inf), unrelated, one side never written}, equal or different layouts, either side missing, glob trees with 0/1/all files differing (a symlinked source file, non-canonical base spellings), listing to stdout or to a -text-out file, -archive all or one id, windows {default, narrow, past, degenerate, beyond finest retention}. " +
 			"oracle (library fetches at the clock printed in the now: line): expected set = slots of the selected archives in the window whose values are not (both NaN or numerically equal); exit 1 <=> set non-empty or a side missing (with an err: line, never exit 2); printed records == the set (compared after ordering both by archive and time) with both values parsed back bit-exactly and destMinusSrc == dest-src (NaN if either missing); " +
 			"self-diff and diff of byte-identical files exit 0; diff(a,b) and diff(b,a) run in the same second give the same verdict and mirrored records; different layouts => exit 2; glob: verdict 1 <=> any file differs and every matched file has its now: line. " +
 			"non-trivial = scenario whose expected set is non-empty AND a proper subset of the compared slots; distinct by scenario parameters.",
@@ -31,7 +31,7 @@ func (c09) Meta() fw.Meta {
 			"the oracle uses the clock the command printed; the symmetry relation is only judged when both runs printed the same clock",
 			"a glob pattern that matches nothing on the source side is not a 'missing file' and is not judged here (C16 covers it)",
 		},
-		Obligations: []string{"diff_runs", "clean_verdicts", "diff_verdicts", "records_checked", "self_diff", "identical_files", "ulp_apart", "signed_zero_equal", "nan_vs_nan_equal", "nan_vs_value", "missing_src", "missing_dest", "layout_mismatch_error", "symmetry_checked", "glob_one_differs", "glob_none_differs", "single_archive_selection", "remote_side_runs"},
+		Obligations: []string{"diff_runs", "clean_verdicts", "diff_verdicts", "records_checked", "self_diff", "identical_files", "ulp_apart", "signed_zero_equal", "nan_vs_nan_equal", "nan_vs_value", "missing_src", "missing_dest", "layout_mismatch_error", "symmetry_checked", "glob_one_differs", "glob_none_differs", "single_archive_selection", "remote_side_runs", "text_out_file_runs", "never_written_side", "symlinked_source_in_glob", "unclean_base_spelling"},
 		Workers:     12,
 	}
 }
@@ -75,6 +75,10 @@ func expectedDiffs(srcPath, destPath string, sel int, from, until, now int64) ([
 	for ai := range s {
 		if s[ai] == nil || d[ai] == nil {
 			continue
+		}
+		if len(s[ai].Values()) != len(d[ai].Values()) || s[ai].FromTime() != d[ai].FromTime() {
+			return nil, 0, fmt.Errorf("archive %d: the library returns different series shapes for the two files over the same window (%d values from %d vs %d values from %d)",
+				ai, len(s[ai].Values()), s[ai].FromTime(), len(d[ai].Values()), d[ai].FromTime())
 		}
 		for j, sv := range s[ai].Values() {
 			compared++
@@ -142,7 +146,7 @@ func (c09) Run(c *fw.Ctx) {
 	mustMkdir(bBase)
 	l := cliLayout(r)
 	now := time.Now().Unix()
-	kinds := []string{"identical-bytes", "same-content", "perturbed", "special-values", "unrelated", "missing-src", "missing-dest", "layout-mismatch", "self", "perturbed"}
+	kinds := []string{"identical-bytes", "same-content", "perturbed", "special-values", "unrelated", "missing-src", "missing-dest", "layout-mismatch", "self", "perturbed", "fresh-vs-written"}
 	sc := diffScenario{L: l.String(), Kind: kinds[c.Index%len(kinds)], Archive: -1}
 	sc.Glob = c.Index%7 == 3 && sc.Kind != "missing-src" && sc.Kind != "layout-mismatch" && sc.Kind != "self"
 	windows := []string{"default", "narrow", "past", "degenerate", "beyond-finest", "default", "default"}
@@ -189,7 +193,17 @@ func (c09) Run(c *fw.Ctx) {
 		sc.Files = append(sc.Files, rel)
 		cont := genContent(r, l, now, 0.3+0.6*r.Float64())
 		ap, bp := filepath.Join(aBase, rel), filepath.Join(bBase, rel)
-		writeFixture(ap, l, cont, now)
+		if sc.Glob && i == 1 {
+			real := filepath.Join(dir, "real", rel)
+			writeFixture(real, l, cont, now)
+			os.Remove(ap)
+			if err := os.Symlink(real, ap); err != nil {
+				panic(err)
+			}
+			c.Count("symlinked_source_in_glob", 1)
+		} else {
+			writeFixture(ap, l, cont, now)
+		}
 		kind := sc.Kind
 		if sc.Glob && !differing[i] {
 			kind = "same-content"
@@ -239,6 +253,16 @@ func (c09) Run(c *fw.Ctx) {
 			c.Count("nan_vs_value", 1)
 		case "unrelated":
 			writeFixture(bp, l, genContent(r, l, now, 0.5), now)
+		case "fresh-vs-written":
+			// one side was never written at all (every archive empty)
+			os.Remove(bp)
+			db, err := createFile(bp, l)
+			if err != nil {
+				panic(err)
+			}
+			db.Sync()
+			db.Close()
+			c.Count("never_written_side", 1)
 		case "missing-src":
 			os.WriteFile(bp, readFileOrNil(ap), 0644)
 			os.Remove(ap)
@@ -268,6 +292,19 @@ func (c09) Run(c *fw.Ctx) {
 	// a third of the single-file scenarios address one side through a real server (the files are
 	// the same ones; the oracle still reads them locally)
 	srcBaseArg, destBaseArg := aBase, destBase
+	if sc.Glob {
+		switch c.Index % 4 {
+		case 1:
+			srcBaseArg = aBase + "/"
+		case 2:
+			srcBaseArg = aBase + "/."
+		case 3:
+			srcBaseArg = filepath.Dir(aBase) + "//" + filepath.Base(aBase)
+		}
+		if srcBaseArg != aBase {
+			c.Count("unclean_base_spelling", 1)
+		}
+	}
 	extra := []string(nil)
 	patArg := pat
 	if !sc.Glob && c.Index%3 == 2 && sc.Kind != "self" {
@@ -288,7 +325,17 @@ func (c09) Run(c *fw.Ctx) {
 			c.Count("remote_side_runs", 1)
 		}
 	}
+	toFile := ""
+	if c.Index%2 == 1 {
+		toFile = filepath.Join(dir, "diff.out")
+		extra = append(extra, "-text-out", toFile)
+		c.Count("text_out_file_runs", 1)
+	}
 	res := runCLI(c, append(mkArgs(srcBaseArg, destBaseArg, patArg), extra...)...)
+	if toFile != "" {
+		// the listing goes to the file: it must be complete there
+		res.Stdout = string(readFileOrNil(toFile))
+	}
 	det := func() fw.J { return fw.J{"scenario": sc, "run": res.brief(), "fixture_clock": now} }
 	c.Count("diff_runs", 1)
 	if cliPanicked(res) {
@@ -361,7 +408,10 @@ func (c09) Run(c *fw.Ctx) {
 		}
 		want, compared, err := expectedDiffs(filepath.Join(aBase, rel), filepath.Join(destBase, rel), sc.Archive, sc.From, until, nl.Now)
 		if err != nil {
-			panic(err)
+			d := det()
+			d["oracle_error"] = err.Error()
+			c.Violationf("equal-layout-files-not-comparable", d, "files of equal layout cannot be compared over the window: %v (diff exited %d)", err, res.Exit)
+			return
 		}
 		sort.SliceStable(want, func(i, j int) bool {
 			if want[i].Arch != want[j].Arch {
@@ -417,7 +467,7 @@ func (c09) Run(c *fw.Ctx) {
 		}
 	}
 	// ---- symmetry: diff(b,a) in the same second gives the same verdict and mirrored records
-	if !sc.Glob && sc.Kind != "self" && extra == nil {
+	if !sc.Glob && sc.Kind != "self" && extra == nil && toFile == "" {
 		res2 := runCLI(c, mkArgs(destBase, aBase, pat)...)
 		out2 := parseOutput(res2.Stdout)
 		if len(out2.Nows) == 1 && len(out.Nows) == 1 && out2.Nows[0].Now == out.Nows[0].Now {
